@@ -224,6 +224,10 @@ func main() {
 				if v.Model != nil {
 					val = v.Model[r.T.Name]
 				}
+				if r.T.IsConst() && r.T.Sort == smt.String {
+					vo.Vec = append(vo.Vec, VecItem{Kind: r.Kind, Val: r.T.S, Tag: r.Tag})
+					continue
+				}
 				vo.Vec = append(vo.Vec, VecItem{Kind: r.Kind, Val: withAffixes(r.Kind, r.T.Name, v.Model, decodeCased(r.Kind, val, v.Model["lower("+r.T.Name+")"])), Tag: r.Tag})
 			}
 			eo.Violations = append(eo.Violations, vo)
@@ -231,6 +235,10 @@ func main() {
 		for _, w := range ex.Witnesses {
 			wo := WitnessOut{Reached: w.Reached}
 			for _, r := range w.ND {
+				if r.T.IsConst() && r.T.Sort == smt.String {
+					wo.Vec = append(wo.Vec, VecItem{Kind: r.Kind, Val: r.T.S, Tag: r.Tag})
+					continue
+				}
 				wo.Vec = append(wo.Vec, VecItem{Kind: r.Kind, Val: withAffixes(r.Kind, r.T.Name, w.Model, decodeCased(r.Kind, w.Model[r.T.Name], w.Model["lower("+r.T.Name+")"])), Tag: r.Tag})
 			}
 			eo.Witnesses = append(eo.Witnesses, wo)
@@ -280,7 +288,7 @@ func decode(kind, val string) string {
 			return "true"
 		}
 		return "false"
-	case "string":
+	case "string", "ext-fail-on":
 		if smt.StrAsInt {
 			if n, ok := smt.ParseInt(val); ok && n.IsInt64() {
 				return smt.DecodeStr(n.Int64())
@@ -300,7 +308,7 @@ func decode(kind, val string) string {
 var caseVariants = map[string][]string{}
 
 func decodeCased(kind, val, lower string) string {
-	if kind != "string" || !smt.StrAsInt || lower == "" {
+	if (kind != "string" && kind != "ext-fail-on") || !smt.StrAsInt || lower == "" {
 		return decode(kind, val)
 	}
 	n, ok1 := smt.ParseInt(val)
@@ -338,7 +346,7 @@ func decodeCased(kind, val, lower string) string {
 // withAffixes: a string the model says has a literal prefix / suffix (uf_hasprefix / uf_hassuffix true) is rendered with
 // the longest such affix attached, so strings.HasPrefix / HasSuffix behave natively as in the model
 func withAffixes(kind, name string, model map[string]string, val string) string {
-	if kind != "string" || model == nil {
+	if (kind != "string" && kind != "ext-fail-on") || model == nil {
 		return val
 	}
 	pre, suf := "", ""
